@@ -11,8 +11,8 @@ META = {
                    "feasible path with a 20-line recursive definition of JSON equality; the three keywords are tied to the same oracle, so "
                    "they agree with each other",
     "bounds": {"depth": "<= 2", "containers": "<= 2 entries (3 thorough for flat arrays)", "strings": "<= 2 code points", "integers": "unbounded",
-               "floats": "not in E1 (CrossHair enumerates integers when an int is compared with a float; measured: 283 paths, no end)"},
-    "outside": ["floats: 1 == 1.0, 2**53 vs 2.0**53, -0.0 (int/float comparison is covered bit-precisely for the ordering keywords in C09's encoding; the == of equal()/unbool() on floats is not encoded)", "depth > 3", "containers > 2 entries"],
+               "floats": "as members of a concrete catalogue (0.0, -0.0, 1.0, 2.0, 0.5, 2.0**53 next to 0, 1, 2, 2**53, 2**53+1, booleans, null, strings) chosen by symbolic indices -- exhaustive over the catalogue; not as symbolic values (CrossHair enumerates integers when a symbolic int meets a float: 283 paths, no end)"},
+    "outside": ["floats other than the catalogue members", "depth > 3", "containers > 2 entries"],
     "stubs": ["message formatting"],
     "assumptions": ["CrossHair's models of set/sorted/== on symbolic containers; each reachability witness is replayed in the plain interpreter"],
 }
@@ -155,6 +155,47 @@ def shaped(draft, kw, sa, sb, leaf="bi", nfill=0):
                 body if n else (lambda unused: body()), tags=["equal", "different"] if (sa, sb) in SAME else ["different"])
 
 
+CAT = [None, True, False, 0, 1, 2, -1, 2 ** 53, 2 ** 53 + 1, 0.0, -0.0, 1.0, 2.0, 0.5, 2.0 ** 53, "", "1", "a"]
+CAT_SHAPES = {
+    "s": lambda v: v, "[s]": lambda v: [v], "{a:s}": lambda v: {"a": v}, "[[s]]": lambda v: [[v]], "{a:[s]}": lambda v: {"a": [v]},
+    "[{a:s}]": lambda v: [{"a": v}],
+}
+
+
+def cat_pair(draft, kw, shape):
+    """leaves from a concrete catalogue (incl. floats, 2**53+1, -0.0) chosen by symbolic indices: exhaustive over the catalogue"""
+    f = CAT_SHAPES[shape]
+
+    def pre(i, j):
+        return 0 <= i < len(CAT) and 0 <= j < len(CAT)
+
+    def body(i, j):
+        return keyword_ok(draft, kw, f(pick(CAT, i)), f(pick(CAT, j)))
+
+    return Spec([("i", int), ("j", int)], pre, body, tags=["equal", "different"])
+
+
+def cat_mixed_uniq(draft, filler):
+    """uniqueItems over [filler, c1, c2]: an unhashable filler forces the non-hash path while two scalars are compared"""
+    fill = {"obj": {}, "arr": [], "arr1": [1], "none": None}[filler]
+
+    def pre(i, j):
+        return 0 <= i < len(CAT) and 0 <= j < len(CAT)
+
+    def body(i, j):
+        a, b = pick(CAT, i), pick(CAT, j)
+        ok = True
+        tag = None
+        for arr in ([fill, a, b], [a, fill, b], [a, b, fill]):
+            got = call(tp.CLS[draft]({"uniqueItems": True}).is_valid, arr)
+            want = not (jeq(a, b) or jeq(fill, a) or jeq(fill, b))
+            ok = ok and got == want
+            tag = "unique" if got else "duplicate"
+        return ok, tag
+
+    return Spec([("i", int), ("j", int)], pre, body, tags=["unique", "duplicate"])
+
+
 def shaped3(draft, shape, leaf="bi"):
     """uniqueItems over three elements of one shape"""
     n1, f = SHAPES[shape]
@@ -195,6 +236,11 @@ def conditions(tier, seed, active):
             for sa, sb in NEAR:
                 if qd or rng.random() < 0.15:
                     c("%s/%s~%s/bi/d%d" % (kw, sa, sb, d), "shaped", dict(draft=d, kw=kw, sa=sa, sb=sb, leaf="bi"), ["different"])
+                if SHAPES[sa][0] + SHAPES[sb][0] <= 2 and (qd or rng.random() < 0.15):
+                    c("%s/%s~%s/scalar/d%d" % (kw, sa, sb, d), "shaped", dict(draft=d, kw=kw, sa=sa, sb=sb, leaf="scalar"), ["different"])
+            for shape in CAT_SHAPES:
+                if qd or (not quick) or rng.random() < 0.2:
+                    c("%s/catalogue/%s/d%d" % (kw, shape, d), "cat_pair", dict(draft=d, kw=kw, shape=shape), ["equal", "different"], timeout=900)
             if not quick:
                 names = sorted(SHAPES)
                 for sa in names:
@@ -212,6 +258,11 @@ def conditions(tier, seed, active):
                     same_family = ka.split("_")[0] == kb.split("_")[0]
                     c("%s/sym:%s~%s/d%d" % (kw, ka, kb, d), "pair", dict(draft=d, kw=kw, ka=ka, kb=kb, **extra),
                       ["equal", "different"] if same_family else ["different"], timeout=3000)
+    for d in (3, 4, 6, 7):
+        for filler in ("obj", "arr", "arr1", "none"):
+            if quick and d in (4, 6) and filler in ("arr1", "none"):
+                continue
+            c("uniq-mixed/catalogue/%s/d%d" % (filler, d), "cat_mixed_uniq", dict(draft=d, filler=filler), ["unique", "duplicate"], timeout=900)
     for d in ((7, 3) if quick else (3, 4, 6, 7)):
         for nfill in (1, 2):
             for sa, sb in (("s", "s"), ("[s]", "[s]"), ("{a:s}", "{a:s}")):
